@@ -75,7 +75,15 @@ std::pair<Graph<EdgeLabel>, std::vector<std::string>> loadTextEdgeList(
         [](const std::string &s) { return EdgeLabel(); }
 ) {
     return loadTextVertexLabeledEdgeList<Graph, EdgeLabel>(
-        fileName, fromString, [](const std::string &str) { return stoi(str); }
+        fileName, fromString,
+        [](const std::string &str) {
+            int index = stoi(str);
+            if (index < 0)
+                throw std::invalid_argument(
+                    "Negative vertex index \"" + str + "\"."
+                );
+            return index;
+        }
     );
 }
 
@@ -204,7 +212,7 @@ loadTextVertexLabeledEdgeList(
         auto vertex = vertexFromString(edgeString[0]);
         auto vertex2 = vertexFromString(edgeString[1]);
 
-        auto largestVertex = std::max(vertex, vertex2);
+        size_t largestVertex = std::max(vertex, vertex2);
         if (largestVertex >= returnedGraph.getSize()) {
             returnedGraph.resize(largestVertex + 1);
             vertexLabels.resize(largestVertex + 1);
